@@ -247,13 +247,9 @@ def plan_tasks(prop, tier, seed, n_corner, n_swarm, state_every=5, n_corner_all=
     total = n_corner_all or n_corner
     ks = list(range(n_corner))
     if n_corner and n_corner < total:
-        # a seed-rotated strided subset of the fixed cornerstone list (the thorough tier runs all of it)
-        import math
-        step = max(1, total // n_corner)
-        while math.gcd(step, total) != 1:
-            step += 1
-        off = h64(seed, "cornerstone-offset") % total
-        ks = sorted({(off + j * step) % total for j in range(n_corner)})
+        # a seeded random subset of the fixed cornerstone list (the thorough tier runs all of it); a strided subset
+        # aliased with the variant order (stride 3 x 3 variants = one variant per family) and missed a mutant
+        ks = sorted(sorted(range(total), key=lambda k: h64(seed, "cornerstone-subset", k))[:n_corner])
     for k in ks:
         tasks.append((prop, tier, seed, "cornerstone", k, ("steps" if k % (2 * state_every) == 0 else True) if k % state_every == 0 else False))
     for i in range(n_swarm):
